@@ -598,6 +598,8 @@ namespace opensmt {
     proof_remove_mixed            = 0;
   //  proof_certify_inter           = 0;
     proof_random_seed	        = 0;
+    proof_switch_to_rp_hash       = 0;
+    proof_trans_strength          = 0;
     sat_theory_polarity_suggestion = 1;
   }
 
